@@ -350,3 +350,117 @@ def evaluate_shifted(f, signals, times, delta=Fraction(1, 4)):
         k = int(math.floor(Fraction(t - t0) * scale))
         out.append(cells[k] if k >= st else None)
     return out
+
+
+# ---------------------------------------------------------------------------------------------------
+# variant for the dense-time OFFLINE monitor on data sets that start at t0 > 0 (open finding site:C04-nonzero-start-bounded):
+# bounded operators hard-code 0 as the start of the signal.  A bounded past operator with begin > 0 prepends a neutral prefix
+# from time 0 (its output starts at 0), a bounded future operator produces output from max(0, start - end) on, and every
+# operator above reads those outputs from *their* start, not from t0.  Cells are counted from time 0 here.
+
+def _off_rewrite(f):
+    from .formula import children, rebuild
+    op = f[0]
+    if op in ('var', 'const'):
+        return f
+    kids = [_off_rewrite(c) for c in children(f)]
+    if op == 'unless':
+        I = f[1]
+        return _off_rewrite(('or', ('always', None if I is None else (0, I[1]), kids[0]), ('until', I, kids[0], kids[1])))
+    if op == 'since' and f[1] is not None:
+        a, b = f[1]
+        if a > 0:
+            return ('and', ('once', (a, b), kids[1]), ('historically', (0, a), ('since', None, kids[0], kids[1])))
+        return ('and', ('once', (a, b), kids[1]), ('since', None, kids[0], kids[1]))
+    if op == 'until' and f[1] is not None:
+        a, b = f[1]
+        if a > 0:
+            return ('and', ('eventually', (a, b), kids[1]), ('always', (0, a), ('until', None, kids[0], kids[1])))
+        return ('and', ('eventually', (a, b), kids[1]), ('until', None, kids[0], kids[1]))
+    return rebuild(f, kids)
+
+
+def _ocells(f, w, N, scale, K0):
+    """(cells, start) with cells indexed from time 0; w[var][k] is None for k < K0"""
+    op = f[0]
+
+    def ib(I):
+        return int(Fraction(I[0]) * scale), int(Fraction(I[1]) * scale)
+    if op == 'var':
+        return list(w[f[1]]), K0
+    if op == 'const':
+        return [f[1]] * N, 0
+    if op in ('once', 'historically'):
+        c, s = _ocells(f[2], w, N, scale, K0)
+        agg = max if op == 'once' else min
+        e = -INF if op == 'once' else INF
+        out = [None] * N
+        if f[1] is None:
+            acc = None
+            for k in range(s, N):
+                acc = c[k] if acc is None else agg(acc, c[k])
+                out[k] = acc
+            return out, s
+        a, b = ib(f[1])
+        st = 0 if a > 0 else s
+        for k in range(st, N):
+            lo, hi = max(s, k - b), k - a
+            out[k] = agg(c[lo:hi + 1]) if hi >= lo else e
+        return out, st
+    if op in ('eventually', 'always'):
+        c, s = _ocells(f[2], w, N, scale, K0)
+        agg = max if op == 'eventually' else min
+        out = [None] * N
+        if f[1] is None:
+            for k in range(s, N):
+                out[k] = agg(c[k:N])
+            return out, s
+        a, b = ib(f[1])
+        st = max(0, s - b)
+        for k in range(st, N):
+            lo, hi = max(s, min(k + a, N - 1)), min(k + b, N - 1)
+            out[k] = agg(c[lo:hi + 1]) if hi >= lo else None
+        return out, st
+    if op in ('since', 'until') and f[1] is None:
+        p, sp = _ocells(f[2], w, N, scale, K0)
+        q, sq = _ocells(f[3], w, N, scale, K0)
+        st = max(sp, sq)
+        out = [None] * N
+        for k in range(st, N):
+            best = -INF
+            rng = range(st, k + 1) if op == 'since' else range(k, N)
+            for j in rng:
+                seg = p[j:k + 1] if op == 'since' else p[k:j + 1]
+                best = max(best, min(q[j], min(seg)))
+            out[k] = best
+        return out, st
+    if op in UN_T or op in ('since', 'until', 'unless'):
+        raise ValueError('no offline-variant semantics for %s' % op)
+    kids = [_ocells(c, w, N, scale, K0) for c in children(f)]
+    st = max([s for _, s in kids] or [0])
+    out = [None] * N
+    sub = ('pred', f[1], ('var', '_0'), ('var', '_1')) if op == 'pred' else f[:1] + tuple(('var', '_%d' % i) for i in range(len(kids)))
+    ww = {'_%d' % i: [0 if v is None else v for v in c] for i, (c, _) in enumerate(kids)}
+    vals = _cells(sub, ww, N, scale)
+    for k in range(st, N):
+        out[k] = vals[k]
+    return out, st
+
+
+def evaluate_offline_variant(f, signals, times, delta=Fraction(1, 4)):
+    """(values at the given times (None where undefined), start time of the output) of the hard-coded-zero variant"""
+    g = _off_rewrite(f)
+    t0 = min(s[0][0] for s in signals.values())
+    tend = max(s[-1][0] for s in signals.values())
+    d = Fraction(delta)
+    scale = 1 / d
+    span = Fraction(tend) + Fraction(total_bounds(g)) + 1
+    N = int(span * scale) + 2
+    K0 = int(Fraction(t0) * scale)
+    w = {v: [None if k < K0 else stepval(s, float(k * d)) for k in range(N)] for v, s in signals.items()}
+    cells, st = _ocells(g, w, N, scale, K0)
+    out = []
+    for t in times:
+        k = int(math.floor(Fraction(t) * scale))
+        out.append(cells[k] if k >= st else None)
+    return out, float(st * d)
